@@ -37,19 +37,36 @@ def raised_in_library(e: BaseException):
     return None
 
 
+CRASH_TYPES = (IndexError, KeyError, AttributeError, AssertionError, UnboundLocalError, ZeroDivisionError, RecursionError, StopIteration)
+
+
+def crash_finding(e: BaseException, where: str, what: str = ""):
+    """A library REFUSAL (ValueError / TypeError / NotImplementedError ...) while a case is being constructed makes the case not
+    applicable.  An IndexError / KeyError / AttributeError / AssertionError ... raised from inside the library is not a refusal but a
+    crash on an input the public API let through: returned as a finding [(fingerprint, description)], else None."""
+    if isinstance(e, CRASH_TYPES):
+        lib = raised_in_library(e)
+        if lib:
+            return [(f"LIB:crash-while-{where}:{type(e).__name__}:{lib}", f"{e}"[:150] + (f" | {what}"[:250] if what else ""))]
+    return None
+
+
 class _WorkerError:
     def __init__(self, text, case):
         self.text, self.case = text, case
 
 
-def run(worker, cases, chunksize=None):
-    """Applies worker(case) to every case in a fork pool; returns results in case order."""
+def run(worker, cases, chunksize=None, isolate=False):
+    """Applies worker(case) to every case in a fork pool; returns results in case order.
+    isolate=True: every case runs in a freshly forked process (no state of the library - caches, class-level tables - can leak
+    from one case into the next, so that a verdict depends on the case alone and replays reproduce); histories that are meant to
+    share a process are then written as ONE case."""
     _F["f"] = worker
     cases = list(cases)
     if not cases:
         return []
-    chunksize = chunksize or max(1, len(cases) // (NPROC * 8))
-    with mp.get_context("fork").Pool(NPROC) as pool:
+    chunksize = 1 if isolate else (chunksize or max(1, len(cases) // (NPROC * 8)))
+    with mp.get_context("fork").Pool(NPROC, maxtasksperchild=1 if isolate else None) as pool:
         out = pool.map(_call, list(enumerate(cases)), chunksize=chunksize)
     for _, r in out:
         if isinstance(r, _WorkerError):
